@@ -27,7 +27,15 @@ SHAPE = [
                                  "self.index[0] == self.index[1] + 1)"),
         ("checkpoint_step_nonnegative", "implies(%s, self.index[1] >= 0)" % one_of(T, LEVEL_TYPES + WORK_PAIR)),
         ("single_level_step_nonnegative", "implies(%s, scalar(self.index) >= 0)" % one_of(T, SCALAR_TYPES)),
+        # adjoint dependencies only ever go to level 0 (WORK in the stream): their transfer is free
+        ("dependency_write_level_0", "implies(%s, self.index[0] == 0)" % one_of(T, WORK_PAIR)),
 ]
 
 # the iterator looks at schedule[i - 1], i.e. at the last operation when i == 0
 LIST_SHAPE = "implies(len(schedule) >= 1, not %s)" % one_of("schedule[len(schedule) - 1].type", WRITE_TYPES)
+# a checkpoint write materialises in the stream as the storage argument of the Forward that follows it
+CHECKPOINT_WRITES = ("Write", "Write_disk", "Write_memory")
+LIST_SHAPE_WRITES = ("forall(0, len(schedule), lambda k: implies(%s, k + 1 < len(schedule) and "
+                     "schedule[k + 1].type == 'Forward'))" % one_of("schedule[k].type", CHECKPOINT_WRITES))
+LIST_SHAPES = [("list_does_not_end_with_a_write", LIST_SHAPE),
+               ("every_checkpoint_write_is_followed_by_a_forward", LIST_SHAPE_WRITES)]
